@@ -27,7 +27,7 @@ FAMS = ("qp", "qp_quartic", "rosenbrock", "exp_wall", "rastrigin", "styblinski_t
 def floors(tier):
     f = {"results_judged": 1500, "restart_results_judged": 500, "restart_below_checkpoint_nit": 100, "early_return_on_restart": 40,
          "callable_stop_criteria_runs": 200, "runs_with_logger": 300, "restarts_with_a_scaler_over_an_unscaled_checkpoint": 100, "kept_results_audited_at_the_end": 1500, "restarts_with_analytic_gradient_from_a_finite_difference_checkpoint": 40, "runs_with_objective_redefined": 150, "objective_redefined_at_a_stationary_point_of_the_old_one": 60,
-         "runs_on_domain_restricted_objective": 60, "runs_with_objective_values_and_target_of_order_1e-16_and_below": 60, "__nontrivial__": 25}
+         "runs_on_domain_restricted_objective": 60, "results_judged_with_the_factorisation_checking_switch": 150, "runs_with_objective_values_and_target_of_order_1e-16_and_below": 60, "__nontrivial__": 25}
     for k in MESSAGES:
         f["msg:" + k] = 5
     return f
@@ -62,6 +62,8 @@ def cases(tier, seed):
         e2e.vary_rare_parameters(rng, cfg)
         if rng.random() < 0.1:
             cfg["max_steplength"] = float(gen.pick(rng, [0.1, 1.0, 5.0]))
+        if i % 9 == 7:
+            cfg["is_check_factorization"] = True  # the debugging switch: it may end a run with an AssertionError of its own, never change a run
         if cfg["jac"] == "callable" and i % 4 == 1:
             cfg["reuse_grad_buffer"] = True  # the user's gradient fills and returns one preallocated array; results are audited at the end
         if i % 3 == 2:
@@ -96,6 +98,11 @@ def cases(tier, seed):
 
 def judge_result(out, P, tr, cfg, nit0, n0, where, tags):
     """All implications of the statement on one returned result."""
+    if isinstance(tr.exc, AssertionError) and cfg.get("is_check_factorization"):
+        out.count("runs_ended_by_the_factorisation_checking_switch")  # its purpose; whether its tolerance is adequate is no listed property (DESIGN 10.3)
+        return None
+    if cfg.get("is_check_factorization"):
+        out.count("results_judged_with_the_factorisation_checking_switch")
     if tr.exc is not None:
         out.count("runs_raised")
         out.count("raised:" + type(tr.exc).__name__)
